@@ -358,7 +358,10 @@ type Observed struct {
 	Panic    string   `json:"panic,omitempty"`
 	Stuck    bool     `json:"stuck,omitempty"` // the idle handler was called with nothing left to fulfil
 	Widths   []int    `json:"-"`               // outstanding promises at each idle round (real side only)
-	tree     any
+	// Abandoned lists the promises whose result was delivered but never received by the executor
+	// (real side only): the selection set they belong to had already failed.
+	Abandoned []string `json:"abandoned,omitempty"`
+	tree      any
 }
 
 func (o *Observed) Line(withEvents bool) string {
